@@ -25,7 +25,7 @@ BUDGET_S = {"quick": 150, "thorough": 1500}
 RULE = ("modes per case: (jit) calendar-day crop initialised on garbage weather, true record of day t written into the model's weather "
         "matrix just before step t, future rows stay garbage and are re-drawn every r steps - all tables must equal the up-front "
         "reference bitwise, which covers every cut day t of that perturbation; (jit_nan) same with NaN poison in every undelivered "
-        "row; (outside) garbage records before/after the window; (extend) end date extended by 1 day .. 2 years, rows and summary "
+        "row; (cut) explicit twins whose weather table, handed in before initialisation, differs from step t on, for cut days placed after / on injected calm days, storms and spikes - rows before t must be equal; (outside) garbage records before/after the window; (extend) end date extended by 1 day .. 2 years, rows and summary "
         "rows of seasons completed in the shorter run must be unchanged. evaluations = runs compared; non-trivial = the run "
         "simulated at least one in-season day under the perturbation; distinct = distinct (configuration signature, mode, parameters)")
 ASSUMPTIONS = ["thermal-time crops legitimately read season-long temperatures at each season start (stated in the property), so the jit modes use calendar-day crops only",
@@ -35,10 +35,13 @@ PROFILE = {"n_seasons": [1, 1, 2, 3], "events_per_year": 2.0, "off_season_p": 0.
 
 
 def gen_case(rng, tier, idx):
-    mode = rng.choice(["jit", "jit", "jit_nan", "outside", "extend", "extend"])
+    mode = rng.choice(["jit", "jit", "jit_nan", "outside", "extend", "extend", "cut", "cut"])
     prof = dict(PROFILE)
-    if mode in ("jit", "jit_nan"):
+    if mode in ("jit", "jit_nan", "cut"):
         prof["crops"] = CAL_CROPS
+    if mode == "cut":
+        # special days in the true record (calm days down to and below the ET0 floor, storms, spikes) to cut right after
+        prof.update({"events_per_year": 4.0, "event_kinds": ["et0_floor", "et0_floor", "storm", "et0_spike", "cold_snap", "heat_wave", "wet_spell"]})
     if mode == "extend":
         # whatever is derived from the window as a whole is a candidate for depending on the end date: CO2 interpolation
         # over the simulated years (sparse user tables, and the decadal part of the default record after 2010), the number
@@ -84,6 +87,18 @@ def gen_case(rng, tier, idx):
             spec["co2"] = {"series": [[y, round(base + 3.0 * (y - y0), 2)] for y in range(first, y1 + 6 + step, step)]}
     if mode == "outside":
         case["pad_front"], case["pad_back"] = rng.choice([0, 1, 30, 500]), rng.choice([0, 1, 30, 500])
+    if mode == "cut":
+        # cut days: the day after / the last day of / the first day of an injected event, and PRNG-drawn days
+        n = (parse_date(spec["end"]) - parse_date(spec["start"])).days + 1
+        off = (parse_date(spec["start"]) - parse_date(spec["weather"]["start"])).days
+        cuts = set()
+        for ev in spec["weather"].get("events") or []:
+            for d in (ev["day"] + ev["len"], ev["day"] + ev["len"] - 1, ev["day"], ev["day"] + 1):
+                if 1 <= d - off < n:
+                    cuts.add(d - off)
+        cuts = sorted(cuts)
+        rng.shuffle(cuts)
+        case["cuts"] = sorted(set(cuts[:4] + [rng.randrange(1, n) for _ in range(2)]))
     return case
 
 
@@ -174,6 +189,42 @@ def run_case(case):
             d = diff_tables(tr, tc)
             if d is not None:
                 V("C14:depends-on-undelivered-weather", f"mode {mode}, future re-drawn every {r} steps, calls of {k} steps: {d}")
+        elif mode == "cut":
+            # explicit twins: the weather TABLE handed to the model differs from day t on (value-permuted plausible records),
+            # so that whatever initialisation derives from the table as a whole is covered too - just-in-time delivery writes
+            # into the already prepared matrix and cannot see look-ahead inside that preparation
+            start = pd.Timestamp(parse_date(spec["start"]))
+            garb = _garbage_like(true_df, g)
+            for t in case["cuts"]:
+                day = start + pd.Timedelta(days=int(t))
+                df = true_df.copy()
+                later = (df["Date"] >= day).values
+                for col in ("MinTemp", "MaxTemp", "Precipitation", "ReferenceET"):
+                    df.loc[later, col] = garb.loc[later, col].values
+                try:
+                    cand = Node(spec, objs=Objects(spec, weather_df=df))
+                    cand.run_to_end()
+                except CaseTimeout:
+                    raise
+                except Exception as e:  # noqa: BLE001
+                    kind, sig = classify_exception(e)
+                    if kind == "harness":
+                        raise
+                    # the perturbed future may legitimately be rejected or hit a recorded finding: nothing to compare
+                    res["probes"]["cut_twin_not_completed"] = res["probes"].get("cut_twin_not_completed", 0) + 1
+                    continue
+                res["days"] += cand.steps_done
+                res["evals"] += 1
+                res["faults"]["weather_table_changed_from_day_t"] = res["faults"].get("weather_table_changed_from_day_t", 0) + 1
+                tc = cand.tables()
+                for name in ("flux", "storage", "growth"):
+                    a, b = tr[name][:t], tc[name][:t]
+                    m = min(len(a), len(b))
+                    eq = (a[:m] == b[:m]) | (np.isnan(a[:m]) & np.isnan(b[:m]))
+                    if not eq.all():
+                        rr, cc = np.argwhere(~eq)[0]
+                        V("C14:day-before-the-cut-depends-on-later-weather", f"weather table changed from step {t} on: {name}[row {int(rr)}, col {int(cc)}] {a[rr, cc]!r} -> {b[rr, cc]!r} ({t - int(rr)} day(s) before the cut)")
+                        break
         elif mode == "outside":
             df = true_df.copy()
             for side, nrows in (("front", case["pad_front"]), ("back", case["pad_back"])):
